@@ -1117,10 +1117,20 @@ func (vc *VC) applyContract(st *State, ct *Contract, o *types.Func, sig *types.S
 		for _, bk := range []string{ct.Key, ct.Key + "#" + site} {
 			// "before F: e" holds before every call of F; "before F#n: e" before the n-th call of F (in source order of evaluation)
 			for _, bc := range vc.contract.Befores[bk] {
-				t := vc.specBool(st, vc.entry, bc.Expr, nil, nil)
+				// arg_<p> names the actual argument bound to the callee's parameter p (arg_recv: the receiver): delegation checks
+				// ("the routed child is called with the unchanged key") do not depend on how the caller names its temporaries
+				argEnv := &rangeCtx{extra: map[string]Val{}}
+				for k, v := range env {
+					argEnv.extra["arg_"+k] = v
+				}
+				t := vc.specBool(st, vc.entry, bc.Expr, argEnv, nil)
 				clause := fmt.Sprintf("%s/before:%s/assert%d", vc.fn.Key, bk, bc.Ord)
 				vc.emit(st, "assert", clause, site, t, c.Pos(), bc.Src)
-				vc.assume(st, t)
+				if !strings.Contains(bc.Src, "arg_") {
+					// state assertions are assumed afterwards (they chain); hand-off checks on the actual arguments are only checked:
+					// assuming them would add quantified facts that later obligations do not need
+					vc.assume(st, t)
+				}
 			}
 		}
 	}
